@@ -310,6 +310,76 @@ Definition c_del (s : st) : st * outcome :=
   | Some _ => (set_c_d None (mod_c CNoValue s), Done RNone)
   end.
 
+(* ---- keyed dict: the remaining instrumented methods of _dict_decorators ---- *)
+(* __before_pop -> fire_pre_remove_event: _modified_event only, no _reset_empty *)
+Definition before_pop (s : st) : st := mod_c CNoValue s.
+
+(* d[key(o)] = o  on a collection that has been read *)
+Definition dict_setitem (o : val) (s1 : st) : st :=
+  let cur := cur_coll s1 in
+  if same_key o cur
+  then set_c_d (Some (map (fun p => if ckey p =? ckey o then o else p) cur)) (coll_event (coll_event s1))
+  else set_c_d (Some (cur ++ [o])) (coll_event s1).
+
+(* d.pop(key(o)) / d.pop(key(o), None): the pre-remove event comes first, the remove event last *)
+Definition c_pop (dflt : bool) (o : val) (s : st) : st * outcome :=
+  let (s1, ok) := coll_touch s in
+  if negb ok then (s1, Fail Unreachable) else
+  let cur := cur_coll s1 in
+  let s2 := before_pop s1 in
+  match holder o cur with
+  | Some p => (set_c_d (Some (remove1 p cur)) (coll_event s2), Done RNone)
+  | None => if dflt then (s2, Done RNone) else (s2, Fail KeyError)
+  end.
+
+Definition last_of (l : list val) : option val := match rev l with x :: _ => Some x | [] => None end.
+
+Definition c_popitem (s : st) : st * outcome :=
+  let (s1, ok) := coll_touch s in
+  if negb ok then (s1, Fail Unreachable) else
+  let cur := cur_coll s1 in
+  let s2 := before_pop s1 in
+  match last_of cur with
+  | Some p => (set_c_d (Some (removelast cur)) (coll_event s2), Done RNone)
+  | None => (s2, Fail KeyError)
+  end.
+
+(* del d[key(o)]: remove event when the key is present, then the builtin raises or deletes *)
+Definition c_delkey (o : val) (s : st) : st * outcome :=
+  let (s1, ok) := coll_touch s in
+  if negb ok then (s1, Fail Unreachable) else
+  let cur := cur_coll s1 in
+  match holder o cur with
+  | Some p => (set_c_d (Some (remove1 p cur)) (coll_event s1), Done RNone)
+  | None => (s1, Fail KeyError)
+  end.
+
+(* d.setdefault(key(o), o): a present key is no mutation *)
+Definition c_setdefault (o : val) (s : st) : st * outcome :=
+  let (s1, ok) := coll_touch s in
+  if negb ok then (s1, Fail Unreachable) else
+  if same_key o (cur_coll s1) then (s1, Done RNone)
+  else (set_c_d (Some (cur_coll s1 ++ [o])) (coll_event s1), Done RNone).
+
+(* d.update({key(o): o ...}): an entry that already maps the key to the same object is no mutation *)
+Definition update_one (t : st) (o : val) : st :=
+  match holder o (cur_coll t) with
+  | Some p => if p =? o then t else dict_setitem o t
+  | None => dict_setitem o t
+  end.
+Definition c_update (l : list val) (s : st) : st * outcome :=
+  let (s1, ok) := coll_touch s in
+  if negb ok then (s1, Fail Unreachable) else (fold_left update_one l s1, Done RNone).
+
+(* d.clear(): a remove event per member, then the builtin *)
+Definition c_clear (s : st) : st * outcome :=
+  let (s1, ok) := coll_touch s in
+  if negb ok then (s1, Fail Unreachable) else
+  match cur_coll s1 with
+  | [] => (s1, Done RNone)
+  | _ :: _ => (set_c_d (Some []) (coll_event s1), Done RNone)
+  end.
+
 Definition c_get (s : st) : st * outcome :=
   let (s1, ok) := coll_touch s in
   if ok then (s1, Done (RColl (c_d s1))) else (s1, Fail Unreachable).
@@ -457,7 +527,9 @@ Inductive op :=
 | SetX (v : val) | DelX | GetX
 | SetB (v : val) | DelB | GetB
 | CAdd (o : val) | CRem (o : val) | CReplace (l : list val) | CDel | CGet
-| Flush | Expire.
+| Flush | Expire
+| CPop (o : val) | CPopD (o : val) | CPopItem | CDelKey (o : val) | CSetDefault (o : val)
+| CUpdate (l : list val) | CClear.
 
 Definition step (k : ckind) (o : op) (s : st) : st * outcome :=
   match o with
@@ -474,6 +546,13 @@ Definition step (k : ckind) (o : op) (s : st) : st * outcome :=
   | CGet => c_get s
   | Flush => flush s
   | Expire => expire s
+  | CPop c => c_pop false c s
+  | CPopD c => c_pop true c s
+  | CPopItem => c_popitem s
+  | CDelKey c => c_delkey c s
+  | CSetDefault c => c_setdefault c s
+  | CUpdate l => c_update l s
+  | CClear => c_clear s
   end.
 
 (* a failed flush rolls the session back: the run stops there *)
